@@ -2,6 +2,7 @@
 methods, external objects."""
 from __future__ import annotations
 
+import ast
 import re
 
 from . import apitable as A
@@ -368,6 +369,23 @@ def _binary(interp, name, args, kw, st, node):
 
 for _n in _BINARY:
     NP["numpy." + _n] = _binary
+
+
+_COMPARE_UFUNCS = {"less": ast.Lt, "less_equal": ast.LtE, "greater": ast.Gt, "greater_equal": ast.GtE, "equal": ast.Eq, "not_equal": ast.NotEq}
+
+
+def _compare_ufunc(interp, name, args, kw, st, node):
+    base = name.rsplit(".", 1)[1]
+    a, b = arrv(args[0]), arrv(args[1])
+    res = A.compare(interp, _COMPARE_UFUNCS[base](), a, b, st, node)
+    out = kw.get("out") or (args[2] if len(args) > 2 else None)
+    if res.kind != "arr" and out is not None and out.kind == "arr":
+        res = A.as_arr(res)
+    return _handle_out(interp, res, out, st, node)
+
+
+for _n in _COMPARE_UFUNCS:
+    NP["numpy." + _n] = _compare_ufunc
 
 
 @reg("numpy.minimum", "numpy.maximum", "numpy.arctan2", "numpy.hypot", "numpy.fmin", "numpy.fmax")
@@ -755,8 +773,37 @@ def np_prod(interp, name, args, kw, st, node):
 
 
 NP["numpy.prod"] = np_prod
-NP["numpy.std"] = _reduction("std")
-NP["numpy.var"] = _reduction("var")
+_red_std, _red_var = _reduction("std"), _reduction("var")
+
+
+def np_var(interp, name, args, kw, st, node):
+    """population variance / standard deviation along axis 0 of a matrix (or of a vector), written out through the mean:
+    var(x) = mean((x - mean(x))**2), corrected by n / (n - ddof)"""
+    b = bind(["a", "axis"], args, kw)
+    x = arrv(b["a"])
+    sh = shape(x)
+    ax = b.get("axis")
+    dd = kw.get("ddof")
+    extra = [k for k in kw if k not in ("axis", "ddof") and not (kw[k].kind == "none")]
+    ok_axis = sh is not None and ((len(sh) == 1 and (ax is None or ax.kind == "none" or (ax.has_const and ax.const in (0, -1)))) or (len(sh) == 2 and ax is not None and ax.has_const and ax.const == 0))
+    if not ok_axis or extra or (dd is not None and not (dd.has_const and isinstance(dd.const, int))):
+        return (_red_std if name.endswith("std") else _red_var)(interp, name, args, kw, st, node)
+    akw = {"axis": ax} if (ax is not None and ax.kind != "none") else {}
+    m = call_external(interp, "numpy.mean", [x], dict(akw), st, node)
+    d = A.binop(interp, "sub", x, m, st, node)
+    sq = A.binop(interp, "pow", d, vconst(2), st, node)
+    v = call_external(interp, "numpy.mean", [sq], dict(akw), st, node)
+    k = dd.const if dd is not None else 0
+    if k:
+        n_ = A.int_of_dim(sh[0])
+        v = A.binop(interp, "mul", v, A.binop(interp, "div", n_, A.binop(interp, "sub", n_, vconst(k), st, node), st, node), st, node)
+    if name.endswith("std"):
+        v = call_external(interp, "numpy.sqrt", [v], {}, st, node)
+    return v
+
+
+NP["numpy.std"] = np_var
+NP["numpy.var"] = np_var
 NP["numpy.median"] = _reduction("median")
 NP["numpy.argmax"] = _reduction("argmax", index=True)
 NP["numpy.argmin"] = _reduction("argmin", index=True)
@@ -936,6 +983,17 @@ def np_argwhere(interp, name, args, kw, st, node):
 def np_searchsorted(interp, name, args, kw, st, node):
     b = bind(["a", "v", "side"], args, kw)
     v = arrv(b["v"])
+    a_ = arrv(b["a"])
+    REV_ = T("slice", const(None), const(None), const(-1))
+    side_ = b.get("side")
+    sname = side_.const if (side_ is not None and side_.has_const) else "left"
+    if isinstance(a_.term, Term) and a_.term.op == "getitem" and a_.term.args[1] == REV_ and isinstance(a_.term.args[0], Term) and a_.term.args[0].op == "svd_S" and shape(v) == () and shape(a_) is not None and len(shape(a_)) == 1 and shape(a_)[0].known() and sname in ("left", "right"):
+        # bisection of the ascending (reversed) singular values: the number of entries <= v (side='right') / < v
+        # (side='left'), i.e. the extent minus the number of entries above (at or above) v
+        s_desc = a_.term.args[0]
+        above = T("count", T("gt" if sname == "right" else "ge", s_desc, v.term))
+        d = shape(a_)[0] - Dim(0, {("t", above): 1})
+        return A.int_of_dim(d, _L(a_, v))
     return V("arr", callterm("searchsorted", [b["a"], b["v"]], {k: x for k, x in b.items() if k == "side" and x is not None}), shape=shape(v), labels=_L(b["a"], v), orig=frozenset([FRESH]), loc=fresh_id(), extra="int")
 
 
